@@ -13,6 +13,6 @@ echo "--- demo on unchanged tree"; go test -vet=off -count=1 "$@" 2>&1 | tail -3
 git apply "$D/patch.diff" || { echo "VERDICT: patch does not apply"; exit 1; }
 go build ./... && go vet ./... >/dev/null 2>&1 || { echo "VERDICT: does not build/vet"; exit 1; }
 echo "--- demo with change"; go test -vet=off -count=1 "$@" 2>&1 | tail -4; mut=${PIPESTATUS[0]}
-rm -f "$PKG"/zz_seeded*_test.go
+rm -f "$PKG"/zz_*_test.go
 echo "--- existing suite with change"; go test -vet=off -count=1 ./... 2>&1 | grep -v "no test files" | grep -v "^ok" | head -5; suite=${PIPESTATUS[0]}
 echo "VERDICT: demo_unchanged_exit=$base demo_changed_exit=$mut suite_exit=$suite"
